@@ -1225,9 +1225,9 @@ impl Connection {
                 Timer::PathValidation => {
                     debug!("path validation failed");
                     if let Some((_, prev)) = self.prev_path.take() {
-                        let abandoned = mem::replace(&mut self.path, prev).generation();
+                        self.path = prev;
                         self.drop_oversized_datagrams();
-                        self.requeue_sent_on_path(abandoned);
+                        self.requeue_sent_on_forgotten_paths();
                         self.set_loss_detection_timer(now);
                     }
                     self.path.challenge = None;
@@ -3235,6 +3235,8 @@ impl Connection {
             // the previous path.
             self.prev_path = Some((self.rem_cids.active(), prev));
         }
+        // Either `prev` or the path that `prev_path` held before is gone now
+        self.requeue_sent_on_forgotten_paths();
 
         self.timers.set(
             Timer::PathValidation,
@@ -3242,24 +3244,28 @@ impl Connection {
         );
     }
 
-    /// Queue for retransmission everything still outstanding that was sent on path `generation`
+    /// Queue for retransmission everything still outstanding that was sent on a path we no longer
+    /// keep state for
     ///
-    /// Once that path is gone, no path's in-flight counters cover these packets any more, so no
+    /// Once a path is gone, no path's in-flight counters cover these packets any more, so no
     /// loss detection timer would be armed for them: unless later traffic happened to expose the
     /// gap, their frames would never be sent again.
-    fn requeue_sent_on_path(&mut self, generation: u64) {
+    fn requeue_sent_on_forgotten_paths(&mut self) {
         let space = SpaceId::Data;
+        let current = self.path.generation();
+        let prev = self.prev_path.as_ref().map(|(_, path)| path.generation());
         let packets = self.spaces[space]
             .sent_packets
             .range(..)
-            .filter(|(_, info)| info.path_generation == generation)
+            .filter(|(_, info)| {
+                info.path_generation != current && Some(info.path_generation) != prev
+            })
             .map(|(pn, _)| pn)
             .collect::<Vec<_>>();
         for pn in packets {
             let Some(info) = self.spaces[space].take(pn) else {
                 continue;
             };
-            self.remove_in_flight(&info);
             for frame in info.stream_frames {
                 self.streams.retransmit(frame);
             }
